@@ -195,7 +195,9 @@ AffParts(o, W, p, x, t) ==
         lonely  |-> ~\E q \in M : reach(q),
         any     |-> M # {}]
 AffTermOK(o, W, p, x, t) ==
-    LET a == AffParts(o, W, p, x, t) IN a.haskey /\ (a.matched \/ (a.self /\ (~o.bootstrap \/ a.lonely)))
+    \* a target WITHOUT the topology key is in no domain at all: the statement has nothing to say (kube-scheduler would refuse
+    \* the node; the trace spec reports it as the non-verdict note Note_C02_TargetLacksKey)
+    LET a == AffParts(o, W, p, x, t) IN ~a.haskey \/ a.matched \/ (a.self /\ (~o.bootstrap \/ a.lonely))
 G_C02_Affinity(o, W, p, x) == \A i \in DOMAIN p.aff : AffTermOK(o, W, p, x, p.aff[i])
 
 (* What the universe of (p, s) must at least contain, whatever Karpenter's policy adds (sanity guard of the logged      *)
@@ -242,7 +244,7 @@ SpreadParts(o, W, p, x, s, UL) ==
     IN [haskey |-> Dx # {}, dx |-> Dx, d |-> D, min |-> mn, self |-> self,
         cnt |-> [d \in Dx |-> lo(d)], hi |-> [e \in D |-> hi(e)],
         okd |-> [d \in Dx |-> lo(d) + self - mn <= s.maxSkew + o.slack],
-        ok |-> Dx # {} /\ \A d \in Dx : lo(d) + self - mn <= s.maxSkew + o.slack]
+        ok |-> \A d \in Dx : lo(d) + self - mn <= s.maxSkew + o.slack]
 SpreadOK(o, W, p, x, s, U) == SpreadParts(o, W, p, x, s, U).ok
 DnsIdx(p) == {i \in DOMAIN p.spread : p.spread[i].when = "DoNotSchedule"}
 G_C02_Spread(o, W, p, x, Uof(_)) == \A i \in DnsIdx(p) : SpreadOK(o, W, p, x, p.spread[i], Uof(p.spread[i]))
@@ -269,7 +271,7 @@ EndAffTermOK(o, W, p, t) ==
                                                /\ ~AffParts(o, Without(W, q), q, Loc(W, q), q.aff[j]).matched
                     /\ (\E v \in TDom(cfg, Loc(W, q), k) : PodAllowsKey(cfg, p, k, v))
                     /\ (\E v \in TDom(cfg, x, k) : PodAllowsKey(cfg, q, k, v))
-    IN a.haskey /\ (a.matched \/ (a.self /\ ~reachRunning /\ ~\E q \in PlacedPods(W) : rival(q)))
+    IN ~a.haskey \/ a.matched \/ (a.self /\ ~reachRunning /\ ~\E q \in PlacedPods(W) : rival(q))
 EndAffBad(o, W) == UNION {{<<PKey(p), i>> : i \in {j \in DOMAIN p.aff : ~EndAffTermOK(o, W, p, p.aff[j])}} : p \in PlacedPods(W)}
 (* spread without order: for every domain d the pod may be in, SOME carrier of the constraint placed (possibly) in d in   *)
 (* this pass could have been admitted last (the one that really was, was admitted with a count of d no smaller and a    *)
@@ -278,7 +280,7 @@ EndSpreadOK(o, W, p, s, Uof(_, _)) ==
     LET cfg == W.cfg
         Dp == TDom(cfg, Loc(W, p), s.key)
         C(d) == {q \in PlacedPods(W) : Carries(q, s, p) /\ d \in TDom(cfg, Loc(W, q), s.key)}
-    IN Dp # {} /\ \A d \in Dp : \E q \in C(d) : \E i \in CarriesIdx(q, s, p) :
+    IN \A d \in Dp : \E q \in C(d) : \E i \in CarriesIdx(q, s, p) :
                       SpreadParts([o EXCEPT !.endForm = TRUE], Without(W, q), q, Loc(W, q), q.spread[i], Uof(q, q.spread[i])).okd[d]
 EndSpreadBad(o, W, Uof(_, _)) ==
     UNION {{<<PKey(p), i>> : i \in {j \in DnsIdx(p) : ~EndSpreadOK(o, W, p, p.spread[j], Uof)}} : p \in PlacedPods(W)}
